@@ -101,9 +101,41 @@ def check_case(case):
                         for seen in objs[name].seen_columns:
                             if not set(p["cols"]) <= set(seen):   # "at least the columns they declared"
                                 fails.append(f"{name}: received columns {seen}, declared {sorted(p['cols'])}")
+        try:
+            fails += _null_neighbour(case, data, want_pairs[0])
+        except Exception as e:
+            fails.append(f"row-level metrics next to each other: analysis of pair {want_pairs[0]} failed with {type(e).__name__}: {e}")
         return fails, raised, got_pairs
     finally:
         B.cleanup()
+
+
+def _null_neighbour(case, data, pair):
+    """A row-level metric's entry must not depend on missing values in a column that only ANOTHER row-level metric reads."""
+    import tea_tasting as tt
+    import tea_tasting.metrics as TM
+
+    class Rows(TM.MetricBaseGranular):
+        def __init__(self, col):
+            self.col = col
+
+        @property
+        def cols(self):
+            return (self.col,)
+
+        def analyze_granular(self, control, treatment):
+            f = lambda t: (t.num_rows, sum(x for x in t[self.col].to_pylist() if x is not None and x == x))
+            return {"c": f(control), "t": f(treatment)}
+    rng = random.Random(case["data_seed"] + 1)
+    d = dict(data)
+    d["nz"] = [(None if rng.random() < 0.25 else float(rng.randint(0, 9))) for _ in d["variant"]]
+    d["nz"][0] = 1.0
+    inside = tt.Experiment(g1=Rows("x"), g2=Rows("nz")).analyze(B.make_table(case["backend"], d), control=pair[0], all_variants=True)
+    alone = Rows("x").analyze(B.make_table(case["backend"], d), pair[0], pair[1], "variant")
+    got = inside[pair]["g1"]
+    if got != alone:
+        return [f"row-level metric on 'x' next to a metric on a column with missing values: entry {got} differs from the metric alone {alone}"]
+    return []
 
 
 def _rows(data, v):
